@@ -105,6 +105,12 @@ class Resolver:
                 if len(parts) >= 2 and parts[-2] in self.program.classes and parts[-1] in self.program.classes[parts[-2]].methods:
                     cands = [self.program.classes[parts[-2]].methods[parts[-1]]]
                     skip = 0 if cands[0].is_static else 1
+                elif parts[-1] in self.program.classes:
+                    # a constructor call: keywords are matched against __init__ (through the MRO), self skipped
+                    init = self.program.classes[parts[-1]].lookup("__init__")
+                    if init is not None:
+                        cands = [init]
+                        skip = 1
         else:
             return args, kwargs
         kwnames = {k for k, _ in kwargs}
